@@ -914,6 +914,9 @@ def forge_from(arng, keys, d, cls):
     (the attacker reads the wire): the header of its own choice, d's length and count"""
     h = S.unpack_header(d)
     body = d[20:]
+    if cls == "same-shape-typed":
+        hh = [1, h[1], arng.choice([wire(h[2] + 1), 0x4000, h[2]]), arng.choice([h[3], 0x1234]), h[4], h[5], h[6], arng.choice([0xFFFFFFFF, h[7]])]
+        return S.pack_header(hh) + bytes(arng.randrange(256) for _ in range(len(body)))
     if cls == "same-shape":
         # any header with d's length / count, junk of d's size behind it
         hh = [1, h[1], arng.choice([wire(h[2] + 1), wire(h[2] + 40), 0x4000, h[2]]), arng.choice([h[3], 0x1234, 0]),
@@ -1000,12 +1003,19 @@ def server_loop_world(run, seed, front, attacked, steps, focus):
                 out = []
                 for (a, d) in batch:
                     conn = sim.ctxt.connections.get(a)
-                    if a != victim or conn is None or len(d) < 24 or d[12] in (1, 3) or arng.random() < 0.25:
+                    half_open = conn is None and a in sim.ctxt.temp_connections and len(d) >= 24 and d[12] == 3
+                    if a != victim or (conn is None and not half_open) or len(d) < 24 or d[12] == 1 or (d[12] == 3 and not half_open) \
+                            or arng.random() < 0.25:
                         out.append((a, d))
                         continue
-                    cls = arng.choice(FORGE_CLASSES)
+                    # towards a half-open slot only CHALLENGE_RESP-typed datagrams reach the connection object: forgeries that keep the type
+                    cls = arng.choice(["same-shape-typed", "seq-rewrite", "ack-rewrite", "flip", "random-body"] if half_open else FORGE_CLASSES)
                     pos = arng.choice(["before", "before", "after", "both"])
                     f = [forge_from(arng, sim.keys, d, cls) for _ in range(2 if pos == "both" else 1)]
+                    if half_open:
+                        f = [x for x in f if len(x) > 12 and x[12] == 3] or [d[:20] + bytes(arng.randrange(256) for _ in range(len(d) - 20))]
+                        pos = "before" if len(f) == 1 and pos == "both" else pos
+                        info["half_open"] = info.get("half_open", 0) + len(f)
                     for x in f:
                         forged_log.setdefault(st, []).append((a, cls, pos, x))
                         try:
@@ -1043,9 +1053,9 @@ def server_loop_forgeries(run, rng, fronts, steps):
     source address, same length — and its twin without them must produce the same handler events, the same
     datagrams towards the clients and the same pool contents at every tick (stats.dropped apart, which must count
     exactly the forgeries)."""
-    for front in fronts:
+    for nw, front in enumerate(fronts):
         seed = rng.randrange(1 << 30)
-        focus = True
+        focus = nw % 5 != 4           # mostly: the victim's datagrams are the last the front door receives in their tick
         from harness import srvx as X
         with X.logging_enabled():
             A = server_loop_world(run, seed, front, True, steps, focus)
@@ -1097,6 +1107,7 @@ def server_loop_forgeries(run, rng, fronts, steps):
         run.count("server_loop_twin_worlds")
         run.count("server_loop_forgeries", nf)
         run.count("server_loop_forgeries_same_tick_same_length_before_genuine", A["info"]["same_tick_same_length"])
+        run.count("server_loop_forgeries_towards_half_open_slot", A["info"].get("half_open", 0))
         for api, c in A["calls"].items():
             run.count("socket_loop_%s_calls" % api, c)
         if nf == 0 or A["info"]["same_tick_same_length"] == 0:
@@ -1123,7 +1134,7 @@ def run(run):
     corr_bytes(run, inj)
     server_half_open(run, run.rng, 8 if thorough else 4)
     from harness import srvx as X
-    server_loop_forgeries(run, run.rng, list(X.FRONTS) * (12 if thorough else 1) + ["udpserver"], 60 if thorough else 36)
+    server_loop_forgeries(run, run.rng, list(X.FRONTS) * (12 if thorough else 2) + ["udpserver"] * 2, 60 if thorough else 36)
     run.rules.append(LOOP_RULE)
     run.count("injected_total", inj.n)
     run.sample({"oracle": "deep snapshot equality around each injected datagram; twin session comparison",
